@@ -202,3 +202,36 @@ def lazy_program(rnd, own_link=False, nlabels=4, nstmts=14):
         pos = rnd.choice([0, len(body) // 2, len(body)])
         body.insert(pos, {"k": "link", "e": rnd.choice(forms)})
     return [body]
+
+
+def private_lazy_program(rnd, nfiles=2):
+    """Linked files that use the SAME private names (n, m) for different things, each defined by a forward reference (so that it is
+    still a pending value when it is first used), export values that are linear in their own private names (e1 == n + 2), and
+    combine the other files' exports with their own private names in one sum (.word e2 + n, e1 - e2, n - e1 ...).  The order of
+    uses, definitions and labels inside a file is random; all programs are meant to be accepted."""
+    files = []
+    for f in range(1, nfiles + 1):
+        others = [g for g in range(1, nfiles + 1) if g != f]
+        labs = [lab(f"fa{f}"), lab(f"fb{f}")]
+        defs = [const("n", rnd.choice([sym(f"fa{f}"), bin_("+", sym(f"fb{f}"), num(rnd.randrange(0, 5))), bin_("-", sym(f"fb{f}"), sym(f"fa{f}"))])),
+                const("m", bin_("+", sym("n"), num(rnd.randrange(1, 9))))]
+        exports = [const(f"e{f}", rnd.choice([bin_("+", sym("n"), num(2 * f)), bin_("-", sym("m"), num(f)),
+                                               bin_("-", bin_("*", num(2), sym("n")), sym(f"fa{f}")), sym("n")]), x=True)]
+        uses = []
+        for _ in range(rnd.randrange(2, 5)):
+            o = sym(f"e{rnd.choice(others)}")
+            own = sym(rnd.choice(["n", "m"]))
+            uses.append(rnd.choice([word(bin_("+", o, own)), word(bin_("-", o, own)), word(bin_("-", own, o)), word(o, own),
+                                    word(bin_("-", o, sym(f"e{f}"))), insn("movi", bin_("+", own, o)), word(bin_("-", bin_("+", o, own), sym(f"fa{f}")))]))
+        body = uses + [insn("nop")] * rnd.randrange(0, 3) + [{"k": "blkb", "e": num(rnd.randrange(0, 4) * 2)}]
+        rest = defs + exports + labs
+        if rnd.random() < 0.6:
+            stmts = body + rest                      # uses first: everything they name is still pending
+            rnd.shuffle(rest)
+            stmts = body + rest
+        else:
+            stmts = body + rest
+            rnd.shuffle(stmts)
+        # labels must not split word data from an even address: all sizes above are even
+        files.append(stmts)
+    return files
